@@ -99,8 +99,8 @@ def finalize(tier, merged):
 
 
 def plan(tier, seed):
-    n = 384 if tier == "quick" else 12000
-    per = 6 if tier == "quick" else 20
+    n = 560 if tier == "quick" else 12000
+    per = 8 if tier == "quick" else 20
     out = []
     base = seed * 1000003
     for i in range(0, n, per):
@@ -1379,6 +1379,9 @@ class Scenario:
                 ends.append(self.server_close_time)
             up_for = min(ends) - t0
             if (wconn.vf.key_updated or rconn.vf.key_updated) and not (r.eof_seen and not r.eof_by_term):
+                self.count("streams_completeness_skipped_key_update")
+                if up_for < COMPLETE_GRACE:
+                    continue
                 # sans-IO core, not the adapter: after a local key update the previous receive keys are dropped at once; if the
                 # first packets of the new phase are lost the peer keeps sending in the old phase and nothing is ever accepted
                 # again (connection dies by idle timeout).  Observed on the unchanged tree; outside this property.
@@ -1418,6 +1421,7 @@ class Scenario:
             res.count("net_" + k, n)
         res.count("timers_armed", loop.timers_armed)
         res.count("timers_fired_late", loop.timers_late)
+        res.count("obs_timers_armed_for_a_past_deadline", loop.timers_armed_in_past)
         res.count("loop_iterations", loop.iterations)
         for p in self.protos:
             tr = p.vf.trace
